@@ -354,6 +354,32 @@ def check_case(ctx, case):
                         break
         else:
             ctx.count("skipped:single_precision_catalog_rejected")     # float32 rounding may move an event across the region's border
+    # ---- one extra event within round-off BELOW THE FIRST magnitude edge (the double just below it; with a caller-supplied tol, 0.3 tol
+    # below it).  It may be taken into the first bin or be treated as below the minimum - but by every gridding alike: either
+    # spatial_magnitude_counts counts it (then the magnitude histogram counts it too, in the same bin) or it rejects the catalog
+    # (then the histogram leaves exactly that event uncounted)
+    if n and not outside and not below and case.get("first_edge_roundoff"):
+        for tolv in ([None] + ([case["tol"]] if case.get("tol") else [])):
+            m_low = float(numpy.nextafter(edges[0], -numpy.inf)) if tolv is None else edges[0] - 0.3 * tolv
+            ev_low = list(events) + [("low", 10 ** 7 + 1, ev[0][1], ev[0][0], 5.0, m_low)]
+            tkw = dict(kw, **({"tol": tolv} if tolv is not None else {}))
+            c4 = CSEPCatalog(data=ev_low, region=region)
+            o1, o2 = call(lambda: c4.spatial_magnitude_counts(**tkw)), call(lambda: c4.magnitude_counts(**tkw))
+            ctx.count("first_edge_roundoff_events")
+            if not o2.ok:
+                ctx.unexpected(o2, "magnitude_counts:event_within_roundoff_below_first_edge")
+                continue
+            g2 = numpy.asarray(o2.value)
+            if o1.ok:
+                g1 = numpy.asarray(o1.value)
+                if g1.shape == E.shape and (g1.sum() != n + 1 or not numpy.array_equal(g1.sum(axis=0), g2)):
+                    ctx.violation("first_edge_roundoff:histogram_differs_from_space_magnitude_marginal",
+                                  {"tol": tolv, "m": m_low, "smc_marginal": g1.sum(axis=0).tolist(), "mc": g2.tolist(), "n": n + 1})
+            elif isinstance(o1.exc, ValueError):
+                if g2.shape == want_mag.shape and not numpy.array_equal(g2, want_mag):
+                    ctx.violation("first_edge_roundoff:gridding_rejects_but_histogram_differs", {"tol": tolv, "m": m_low, "mc": g2.tolist(), "want": want_mag.tolist()})
+            else:
+                ctx.unexpected(o1, "spatial_magnitude_counts:event_within_roundoff_below_first_edge")
     # ---- the magnitude grid built the way users build it, numpy.arange(start, stop, step): its edges wander an ulp off the decimals, an
     # event ON a decimal edge is then within round-off of the arange edge and either bin is admissible - but ONE bin, the same
     # in every gridding of the catalog: total, marginal over space == magnitude histogram, explicit == region-bound
@@ -483,6 +509,8 @@ def cases(draw, max_events=40):
         case["f4_columns"] = True
     if mc["n"] >= 2 and draw(st.integers(0, 3)) == 0:
         case["arange_edges"] = True
+    if draw(st.integers(0, 2)) == 0:
+        case["first_edge_roundoff"] = True
     if draw(st.booleans()):
         case["family"] = "mixed"
         pos = []
